@@ -34,8 +34,7 @@ import (
 	"github.com/WuKongIM/WuKongIM/pkg/channel/machine"
 	"github.com/WuKongIM/WuKongIM/pkg/channel/reactor"
 	"github.com/WuKongIM/WuKongIM/pkg/channel/store"
-	"github.com/WuKongIM/WuKongIM/pkg/channel/worker"
-	"github.com/WuKongIM/WuKongIM/pkg/cluster/channels"
+		"github.com/WuKongIM/WuKongIM/pkg/cluster/channels"
 	compat "github.com/WuKongIM/WuKongIM/pkg/db/message/channelcompat"
 )
 
@@ -51,6 +50,8 @@ type c10Runner struct {
 	dir     string
 	factory *store.MessageDBFactory
 	stores  [c10NumChan]store.ChannelStore
+	rig     *reactor.VerifRetentionRig
+	rts     [c10NumChan]uint64 // rc.state.RetentionThroughSeq of the loaded runtime channel (highest boundary seen)
 }
 
 var c10RunnerSeq int
@@ -78,9 +79,19 @@ func (r *c10Runner) open() {
 		panic("open message db: " + err.Error())
 	}
 	r.stores[0] = s
+	rig, err := reactor.VerifNewRetentionRig(1, r.factory)
+	if err != nil {
+		panic("retention rig: " + err.Error())
+	}
+	r.rig = rig
+	r.rts = [c10NumChan]uint64{}
 }
 
 func (r *c10Runner) closeAll() {
+	if r.rig != nil {
+		r.rig.Close()
+		r.rig = nil
+	}
 	for i := range r.stores {
 		if r.stores[i] != nil {
 			_ = r.stores[i].Close()
@@ -449,17 +460,23 @@ func (r *c10Runner) retain(c int, f []string) string {
 	if ret.RetainedMaxSeq > st.LEO {
 		st.LEO = ret.RetainedMaxSeq
 	}
-	st.RetentionThroughSeq = rts
-	// handleApplyRetentionBoundary
-	if through > st.RetentionThroughSeq {
-		st.RetentionThroughSeq = through
+	st.RetentionThroughSeq = r.rts[c]
+	if rts > st.RetentionThroughSeq { // ApplyMeta raised the authoritative boundary
+		st.RetentionThroughSeq = rts
 	}
-	if through <= st.LocalRetentionThroughSeq && through <= st.PhysicalRetentionThroughSeq {
-		return "noop"
+	st.Key = ch.ChannelKeyForID(c10ID(c))
+	st.ID = c10ID(c)
+	st.LocalNode = ch.NodeID(local)
+	probe := *st
+	if through > probe.RetentionThroughSeq {
+		probe.RetentionThroughSeq = through
 	}
-	allowed, reason := reactor.VerifRetentionTrimDecision(st, through)
-	res, err := worker.VerifRunStoreRetention(ctx, r.factory, ch.ChannelKeyForID(c10ID(c)), c10ID(c), through, allowed, reason,
-		store.RetentionTrimOptions{MaxMessages: int(maxMsgs), MaxBytes: int(maxBytes)})
+	allowed, reason := reactor.VerifRetentionTrimDecision(&probe, through)
+	minISR := reactor.VerifMinISRMatchOffset(&probe)
+	// the REAL path: handleApplyRetentionBoundary -> worker retention (+ checkpoint) task -> result handlers
+	res, err := r.rig.Apply(st, r.cs(c), ch.RetentionApplyRequest{ChannelID: c10ID(c), ThroughSeq: through,
+		Options: ch.RetentionApplyOptions{MaxTrimMessages: int(maxMsgs), MaxTrimBytes: int(maxBytes)}})
+	r.rts[c] = st.RetentionThroughSeq
 	a := "0"
 	if allowed {
 		a = "1"
@@ -467,16 +484,25 @@ func (r *c10Runner) retain(c int, f []string) string {
 	if reason == "" {
 		reason = "-"
 	}
-	head := fmt.Sprintf("allowed=%s reason=%s gate=%d/%d/%d/%d", a, reason, st.HW, st.CheckpointHW, st.LEO, reactor.VerifMinISRMatchOffset(st))
+	head := fmt.Sprintf("allowed=%s reason=%s gate=%d/%d/%d/%d", a, reason, probe.HW, probe.CheckpointHW, probe.LEO, minISR)
+	after, lerr := r.cs(c).Load(ctx)
+	ck := "?"
+	if lerr == nil {
+		ck = strconv.FormatUint(after.CheckpointHW, 10)
+	}
 	if err != nil {
-		return head + " " + c10Err(err) + " rows=" + r.remaining(c)
+		return head + " " + c10Err(err) + " ck=" + ck + " rows=" + r.remaining(c)
 	}
 	more := "0"
 	if res.More {
 		more = "1"
 	}
-	return fmt.Sprintf("%s ok %d %d %d %d %d %s rows=%s", head, res.LocalRetentionThroughSeq, res.PhysicalRetentionThroughSeq, res.RetainedMaxSeq,
-		res.DeletedThroughSeq, res.Deleted, more, r.remaining(c))
+	br := res.BlockedReason
+	if br == "" {
+		br = "-"
+	}
+	return fmt.Sprintf("%s ok %d %d %d %d %d %s %s ck=%s rows=%s", head, res.LocalRetentionThroughSeq, res.PhysicalRetentionThroughSeq, res.ThroughSeq,
+		res.DeletedThroughSeq, res.Deleted, more, br, ck, r.remaining(c))
 }
 
 var _ = sort.Ints
